@@ -122,7 +122,10 @@ def _interp_1d_conservative(phi, theta_1, theta_2, theta_hat_1, theta_hat_2, out
                 # there is no overlap between the cell and the bin
                 pass
             elif theta_max == theta_min:
-                output[j] += phi[i]
+                # a homogeneous cell goes to exactly one bin, also when its value lies
+                # on a bin edge: bins are half-open, the last one is closed
+                if (theta_min < theta_hat_2[j]) or (j == m - 1):
+                    output[j] += phi[i]
             else:
                 # from here on there is some overlap
                 theta_hat_min = max(theta_min, theta_hat_1[j])
